@@ -102,7 +102,7 @@ func runC14(c *Ctx) {
 			n++
 			construct := core.FuncName(f) + "/" + fs.field
 			var raw []string
-			leaves := core.Leaves(fs.st.Val, core.SliceOpts{StopAt: func(v ssa.Value) bool {
+			leaves := core.Leaves(fs.st.Val, core.SliceOpts{IntoCallees: 2, StopAt: func(v ssa.Value) bool {
 				call, ok := v.(*ssa.Call)
 				return ok && core.CalleeName(&call.Call) == "regexp.QuoteMeta"
 			}})
@@ -232,7 +232,8 @@ func runC14(c *Ctx) {
 			for _, in := range b.Instrs {
 				switch x := in.(type) {
 				case *ssa.Slice:
-					if (x.High != nil || x.Low != nil) && core.AccessOf(x.X).Root == ssa.Value(list) {
+					// a window that is only read (ranged over, indexed, measured) drops nothing
+					if (x.High != nil || x.Low != nil) && core.AccessOf(x.X).Root == ssa.Value(list) && !sliceOnlyRead(x, 0) {
 						bad = "the input list is re-sliced at " + p.Pos(in.Pos()) + ": elements are dropped before their precedence has been distributed to the others"
 					}
 				case *ssa.Store:
@@ -282,6 +283,36 @@ func runC14(c *Ctx) {
 	checkSourceMatchRequiresPeerAndPartition(c)
 }
 
+// sliceOnlyRead: the slice value is only indexed, measured or windowed again
+// (which is what ranging over it lowers to) — never stored, returned, passed
+// on or merged back into a variable.
+func sliceOnlyRead(v ssa.Value, depth int) bool {
+	if v.Referrers() == nil || depth > 3 {
+		return depth <= 3
+	}
+	for _, rr := range *v.Referrers() {
+		switch x := rr.(type) {
+		case *ssa.IndexAddr:
+			if x.X != v {
+				return false
+			}
+		case *ssa.Slice:
+			if x.X != v || !sliceOnlyRead(x, depth+1) {
+				return false
+			}
+		case *ssa.Call:
+			bi, ok := x.Call.Value.(*ssa.Builtin)
+			if !ok || (bi.Name() != "len" && bi.Name() != "cap") {
+				return false
+			}
+		case *ssa.DebugRef:
+		default:
+			return false
+		}
+	}
+	return true
+}
+
 // C14.4: the pairwise walk that turns precedence into AND-NOT terms.
 //   (a) a source is subtracted only from entries of LOWER precedence: the entry written to has a
 //       larger index than the entry whose source is subtracted (list sorted by precedence);
@@ -295,8 +326,11 @@ func checkSourcePrecedencePairs(c *Ctx) {
 		return
 	}
 	list := f.Params[0]
-	// index value of an element access list[k]
-	indexOf := func(v ssa.Value) ssa.Value {
+	// position of an element access: list[k] is {nil, k}; list[lo:][k] is {lo, k}
+	// (absolute index lo+k). The zero elemPos means "not an element of the list".
+	type elemPos struct{ low, idx ssa.Value }
+	none := elemPos{}
+	indexOf := func(v ssa.Value) elemPos {
 		for i := 0; i < 6; i++ {
 			switch x := v.(type) {
 			case *ssa.UnOp:
@@ -304,18 +338,27 @@ func checkSourcePrecedencePairs(c *Ctx) {
 			case *ssa.FieldAddr:
 				v = x.X
 			case *ssa.IndexAddr:
-				if core.AccessOf(x.X).Root == ssa.Value(list) || x.X == ssa.Value(list) {
-					return x.Index
+				if x.X == ssa.Value(list) {
+					return elemPos{nil, x.Index}
 				}
-				return nil
+				if sl, ok := x.X.(*ssa.Slice); ok && sl.X == ssa.Value(list) && sl.High == nil && sl.Max == nil {
+					return elemPos{sl.Low, x.Index}
+				}
+				if core.AccessOf(x.X).Root == ssa.Value(list) {
+					if _, isSlice := x.X.(*ssa.Slice); !isSlice {
+						return elemPos{nil, x.Index}
+					}
+				}
+				return none
 			default:
-				return nil
+				return none
 			}
 		}
-		return nil
+		return none
 	}
 	name := core.FuncName(f)
 	// (a)
+	var posI, posJ elemPos
 	var subtractI, subtractJ ssa.Value
 	var at ssa.Instruction
 	for _, b := range f.Blocks {
@@ -335,10 +378,12 @@ func checkSourcePrecedencePairs(c *Ctx) {
 			if bi, ok := call.Call.Value.(*ssa.Builtin); !ok || bi.Name() != "append" {
 				continue
 			}
-			subtractJ = indexOf(fa)
+			posJ = indexOf(fa)
+			subtractJ = posJ.idx
 			for _, e := range core.UnpackVariadic(call.Call.Args[1]) {
-				if k := indexOf(e); k != nil {
-					subtractI = k
+				if k := indexOf(e); k != none {
+					posI = k
+					subtractI = k.idx
 				}
 			}
 			at = in
@@ -349,7 +394,18 @@ func checkSourcePrecedencePairs(c *Ctx) {
 	} else {
 		ok := false
 		why := ""
-		if phi, isPhi := subtractJ.(*ssa.Phi); isPhi {
+		one := func(v ssa.Value) bool { k, isK := core.ConstInt(v); return isK && k == 1 }
+		if posJ.low != nil {
+			// the written entry comes from the window list[i+1:]: every element of it lies below entry i
+			if bo, isBin := posJ.low.(*ssa.BinOp); isBin && bo.Op == token.ADD && posI.low == nil &&
+				(bo.X == subtractI && one(bo.Y) || bo.Y == subtractI && one(bo.X)) {
+				ok = true
+			} else {
+				why = "the window the written entry is taken from does not start just above the subtracted entry"
+			}
+		} else if posI.low != nil {
+			why = "the subtracted entry is taken from a window of the list"
+		} else if phi, isPhi := subtractJ.(*ssa.Phi); isPhi {
 			back, isHeader := isLoopHeaderPhi(phi)
 			isBack := map[int]bool{}
 			for _, i := range back {
@@ -359,7 +415,6 @@ func checkSourcePrecedencePairs(c *Ctx) {
 				ok = true
 				for i, e := range phi.Edges {
 					bo, isBin := e.(*ssa.BinOp)
-					one := func(v ssa.Value) bool { k, isK := core.ConstInt(v); return isK && k == 1 }
 					switch {
 					case isBack[i]:
 						if !(isBin && bo.Op == token.ADD && bo.X == ssa.Value(phi) && one(bo.Y)) {
@@ -373,7 +428,7 @@ func checkSourcePrecedencePairs(c *Ctx) {
 				}
 			}
 		}
-		if !ok {
+		if !ok && posI.low == nil && posJ.low == nil {
 			// an explicit guard j > i
 			var gt []core.Edge
 			for _, b := range f.Blocks {
@@ -407,16 +462,16 @@ func checkSourcePrecedencePairs(c *Ctx) {
 			continue
 		}
 		a, b := indexOf(args[0]), indexOf(args[1])
-		if a == subtractI && b == subtractJ {
+		if a == posI && b == posJ {
 			fwd = true
 		}
-		if a == subtractJ && b == subtractI {
+		if a == posJ && b == posI {
 			// and the lower entry is dropped on its true edge
 			te, _ := core.CondEdges(in.(ssa.Value))
 			for _, e := range te {
 				for _, x := range e.From.Succs[e.Succ].Instrs {
 					if st, ok := x.(*ssa.Store); ok {
-						if fa, ok := st.Addr.(*ssa.FieldAddr); ok && core.FieldObj(fa).Name() == "Skip" && indexOf(fa) == subtractJ {
+						if fa, ok := st.Addr.(*ssa.FieldAddr); ok && core.FieldObj(fa).Name() == "Skip" && indexOf(fa) == posJ {
 							if v, ok := core.ConstBool(st.Val); ok && v {
 								rev = true
 							}
